@@ -944,6 +944,299 @@ func vSysCases(out *vOut, r *vRand, n int) {
 	}
 }
 
+// ---- CFine: checks that take time ---------------------------------------------------------------------
+// The limiter runs on its real 1 ms ticker.  readMemStatsFn is a gate: normally a check passes
+// through with the reading of the last completed check (idempotent: minimum GC intervals are one
+// hour), but the harness can HOLD the next check inside CheckMemLimits (FBegin r), do Start /
+// Shutdown / MustRefuse while it is in flight, and release it with reading r (FEnd).  The LAST
+// Shutdown must wait for a check in flight: the harness calls it on a goroutine, requires that it
+// has NOT returned after 30 ms while the check is held, releases the check and requires that the
+// check's result is stored when Shutdown returns and that nothing changes afterwards.
+type vGate struct {
+	mu        sync.Mutex
+	hold      bool
+	cur       uint64 // reading of pass-through checks (= the last completed held check's)
+	pending   uint64 // reading of the check to be held
+	inGC      bool   // variant "slow forced GC": hold the check inside runGCFn (if it forces one) instead of the first reading
+	soft      uint64
+	holdGC    bool
+	skipCount bool
+	heldCh    chan struct{}
+	release   chan uint64
+	entries   atomic.Int64 // checks begun (first readings)
+}
+
+func (g *vGate) read(ms *runtime.MemStats) {
+	g.mu.Lock()
+	if g.skipCount { // the re-reading after the held GC: same check
+		g.skipCount = false
+		cur := g.cur
+		g.mu.Unlock()
+		ms.Alloc = cur
+		return
+	}
+	h := g.hold
+	g.hold = false
+	cur, pending := g.cur, g.pending
+	viaGC := h && g.inGC && pending >= g.soft
+	if viaGC {
+		g.holdGC = true
+	}
+	g.mu.Unlock()
+	g.entries.Add(1)
+	switch {
+	case viaGC:
+		ms.Alloc = pending // at/above the soft limit with zero intervals: a GC is forced, the check is held there
+	case h:
+		g.heldCh <- struct{}{}
+		ms.Alloc = <-g.release
+	default:
+		ms.Alloc = cur
+	}
+}
+
+func (g *vGate) gc() {
+	g.mu.Lock()
+	h := g.holdGC
+	g.holdGC = false
+	g.mu.Unlock()
+	if h {
+		g.heldCh <- struct{}{}
+		<-g.release
+		g.mu.Lock()
+		g.skipCount = true
+		g.mu.Unlock()
+	}
+}
+
+type vFineRes struct {
+	term    string
+	nt      bool
+	oracles [][3]string
+	stats   map[string]int
+}
+
+func vFineOne(seed uint64) vFineRes {
+	r := vNewRand(seed)
+	res := vFineRes{stats: map[string]int{}}
+	c := &Config{CheckInterval: time.Millisecond, MinGCIntervalWhenSoftLimited: time.Hour, MinGCIntervalWhenHardLimited: time.Hour}
+	inGC := r.Intn(3) == 0
+	if inGC { // no minimum interval: every check at/above the soft limit forces a GC; the check is held inside it
+		c.MinGCIntervalWhenSoftLimited, c.MinGCIntervalWhenHardLimited = 0, 0
+		res.stats["fine.scripts_holding_in_gc"]++
+	}
+	c.MemoryLimitMiB = uint32(2 + r.Intn(2000))
+	if r.Bool() {
+		c.MemorySpikeLimitMiB = 1 + uint32(r.Intn(int(c.MemoryLimitMiB-1)))
+	}
+	ml, err := NewMemoryLimiter(c, zap.NewNop())
+	if err != nil {
+		panic(err)
+	}
+	limit, spike := ml.usageChecker.memAllocLimit, ml.usageChecker.memSpikeLimit
+	soft := limit - spike
+	g := &vGate{heldCh: make(chan struct{}, 1), release: make(chan uint64, 1), inGC: inGC, soft: soft}
+	ml.readMemStatsFn = g.read
+	ml.runGCFn = g.gc
+	pool := []uint64{soft - 1, soft, soft + 1, limit, 0, ^uint64(0)}
+	users := 0
+	held := false
+	var heldR uint64
+	var ops, obs []string
+	bad := func(kind, detail string) { res.oracles = append(res.oracles, [3]string{kind, "", detail}) }
+	nops := 5 + r.Intn(12)
+	for k := 0; k < nops; k++ {
+		kind := r.Pick(22, 26, 26, 16, 10) // Start, Shutdown, Begin, End, Query
+		if users == 0 && r.Intn(100) < 60 {
+			kind = 0
+		}
+		if kind == 2 && held {
+			kind = 1 // a check is in flight: rather shut down / start / end around it
+		}
+		if kind == 3 && !held && r.Intn(4) != 0 {
+			kind = 2
+		}
+		switch kind {
+		case 0:
+			e := ml.Start(context.Background(), nil)
+			users++
+			ops = append(ops, "FStart")
+			obs = append(obs, fmt.Sprintf("FLifeRes %s None", vBool(e != nil)))
+		case 1:
+			last := users == 1
+			completed := "None"
+			var e error
+			if last && held {
+				res.stats["fine.last_shutdown_with_check_in_flight"]++
+				before := ml.MustRefuse()
+				done := make(chan error, 1)
+				go func() { done <- ml.Shutdown(context.Background()) }()
+				early := false
+				select {
+				case e = <-done:
+					early = true
+					bad("last-shutdown-returned-while-check-in-flight", fmt.Sprintf("users=%d held_reading=%d soft=%d", users, heldR, soft))
+				case <-time.After(30 * time.Millisecond):
+				}
+				g.mu.Lock()
+				g.cur = heldR
+				g.mu.Unlock()
+				g.release <- heldR
+				if !early {
+					select {
+					case e = <-done:
+					case <-time.After(10 * time.Second):
+						panic("verif: last Shutdown did not return after the check in flight was released")
+					}
+				}
+				atReturn := ml.MustRefuse()
+				time.Sleep(5 * time.Millisecond)
+				after := ml.MustRefuse()
+				if early && after != before || atReturn != after {
+					bad("state-changed-after-last-shutdown", fmt.Sprintf("before=%v at_return=%v later=%v held_reading=%d soft=%d", before, atReturn, after, heldR, soft))
+				}
+				if after != (heldR >= soft) {
+					bad("check-in-flight-result-lost", fmt.Sprintf("refuse=%v held_reading=%d soft=%d", after, heldR, soft))
+				}
+				completed = "(Some " + vBool(atReturn) + ")"
+				held = false
+				res.nt = true
+			} else {
+				e = ml.Shutdown(context.Background())
+			}
+			if (e != nil) != (users == 0) {
+				bad("shutdown-error-iff-not-started", fmt.Sprintf("users=%d err=%v", users, e))
+			}
+			if e == nil {
+				users--
+			}
+			if users == 0 && e == nil { // stopped: no further memory reading may begin
+				e0 := g.entries.Load()
+				time.Sleep(4 * time.Millisecond)
+				if g.entries.Load() != e0 {
+					bad("checker-runs-without-users", fmt.Sprintf("users=0 restarts=0 reads_after_last_shutdown=%d", g.entries.Load()-e0))
+				}
+			}
+			ops = append(ops, "FShutdown")
+			obs = append(obs, fmt.Sprintf("FLifeRes %s %s", vBool(e != nil), completed))
+		case 2: // FBegin: hold the next check (not generated while one is held)
+			rd := pool[r.Intn(len(pool))]
+			g.mu.Lock()
+			g.hold = true
+			g.pending = rd
+			g.mu.Unlock()
+			window := 15 * time.Millisecond
+			if users > 0 {
+				window = 5 * time.Second
+			}
+			begun := false
+			select {
+			case <-g.heldCh:
+				begun = true
+			case <-time.After(window):
+				g.mu.Lock()
+				g.hold = false
+				g.holdGC = false
+				g.mu.Unlock()
+				select { // it may have slipped in just now
+				case <-g.heldCh:
+					begun = true
+				default:
+				}
+			}
+			ops = append(ops, fmt.Sprintf("FBegin (mkTick 0%%Z 0%%Z %s %s)", vU(rd), vU(rd)))
+			if begun {
+				held, heldR = true, rd
+				obs = append(obs, "FBegun")
+				res.stats["fine.check_held"]++
+			} else {
+				obs = append(obs, "FNotBegun")
+				res.stats["fine.check_not_begun"]++
+			}
+			if begun != (users > 0) {
+				bad(map[bool]string{true: "checker-runs-without-users", false: "checker-stopped-with-users"}[begun], fmt.Sprintf("users=%d restarts=0 begun=%v", users, begun))
+			}
+		case 3: // FEnd
+			ops = append(ops, "FEnd")
+			if !held {
+				obs = append(obs, "FNoEnd")
+				break
+			}
+			g.mu.Lock()
+			g.cur = heldR
+			g.mu.Unlock()
+			e0 := g.entries.Load()
+			g.release <- heldR
+			dl := time.Now().Add(5 * time.Second) // the next check begins => the released one is complete
+			for g.entries.Load() == e0 && time.Now().Before(dl) {
+				time.Sleep(100 * time.Microsecond)
+			}
+			refuse := ml.MustRefuse()
+			if g.entries.Load() == e0 {
+				bad("checker-stopped-with-users", fmt.Sprintf("users=%d restarts=0 no check after a released one", users))
+			} else if refuse != (heldR >= soft) {
+				bad("refuse-iff-soft", fmt.Sprintf("limit=%d spike=%d r1=%d refuse=%v (released check)", limit, spike, heldR, refuse))
+			}
+			obs = append(obs, "FEnded "+vBool(refuse))
+			held = false
+			res.nt = true
+		default:
+			ops = append(ops, "FQuery")
+			obs = append(obs, "FQueried "+vBool(ml.MustRefuse()))
+		}
+	}
+	if held { // let the goroutine go before cleaning up
+		g.mu.Lock()
+		g.cur = heldR
+		g.mu.Unlock()
+		g.release <- heldR
+	}
+	for k := 0; k < 64 && ml.Shutdown(context.Background()) == nil; k++ {
+	}
+	ml.ticker.Stop()
+	res.term = fmt.Sprintf("(CFine %s None %s %s)", vCfg(c), vList(ops), vList(obs))
+	for i := range res.oracles {
+		res.oracles[i][1] = res.term
+	}
+	res.stats["fine.scripts"]++
+	return res
+}
+
+func vFineCases(out *vOut, r *vRand, n int) {
+	seeds := make([]uint64, n)
+	for i := range seeds {
+		seeds[i] = r.U64()
+	}
+	results := make([]vFineRes, n)
+	var wg sync.WaitGroup
+	sem := make(chan struct{}, 8)
+	for i := range seeds {
+		wg.Add(1)
+		sem <- struct{}{}
+		go func(i int) {
+			defer wg.Done()
+			defer func() { <-sem }()
+			defer func() {
+				if e := recover(); e != nil {
+					results[i] = vFineRes{term: "(CFine (mkConfig 0%Z 0%Z 0%Z 0%Z 0%Z 0%Z 0%Z) None [] [FNoEnd])", stats: map[string]int{"fine.panics": 1},
+						oracles: [][3]string{{"implementation-panics", fmt.Sprintf("(CFine script seed %d)", seeds[i]), fmt.Sprint(e)}}}
+				}
+			}()
+			results[i] = vFineOne(seeds[i])
+		}(i)
+	}
+	wg.Wait()
+	for _, res := range results {
+		out.Case(res.nt, res.term)
+		for _, o := range res.oracles {
+			out.Oracle(o[0], o[1], o[2])
+		}
+		for k, v := range res.stats {
+			out.Stat(k, v)
+		}
+	}
+}
+
 // vWitnessReplay replays the recorded Coq witnesses on the implementation: limits_wellformed_refuted
 // (Proofs.v wrap_cfg / wrap_total: 2 % / 1 % of 2^63 bytes) — the limit wraps to 0, the spike does
 // not, and a terabyte of usage is not refused.  (The restart sequence [Start; Shutdown; Start] of the
@@ -985,4 +1278,5 @@ func TestVerifC18(t *testing.T) {
 	vLifeCases(out, vNewRand(1803))
 	vLifeConcurrent(out, vNewRand(1804))
 	vSysCases(out, vNewRand(1805), vBudget(80, 15))
+	vFineCases(out, vNewRand(1806), vBudget(80, 15))
 }
